@@ -32,8 +32,19 @@ class Case:
         self.alt_call = alt_call   # model call of the 'spec' variant of a known finding (diagnostic file only)
 
 
+def global_knobs():
+    """interpreter-wide settings a modelling call has no business changing"""
+    import numpy, attr, sys as _sys, decimal
+    return (tuple(sorted(numpy.geterr().items())), attr.validators.get_disabled(), _sys.getrecursionlimit(),
+            tuple(sorted((k, repr(v)) for k, v in numpy.get_printoptions().items())), decimal.getcontext().prec)
+
+
+KNOBS0 = global_knobs()          # baseline taken when the tracer is imported, before any code under test runs
+
+
 def run_case(case):
     ctx = sym.reset()
+    knobs0 = KNOBS0
     out = {'name': case.name, 'status': 'ok'}
     if case.raw_stmt is not None:
         out.update({'outcome': case.note, 'pcs': [], 'rhs': '', 'hyps': [], 'call': '', 'alt_call': None, 'wall': 0})
@@ -51,6 +62,11 @@ def run_case(case):
                 raise
             except Exception as e:  # the real code raised: an Err outcome
                 r, exc = None, e
+        if global_knobs() != knobs0:
+            import numpy, attr
+            numpy.seterr(**dict(knobs0[0]))
+            attr.validators.set_disabled(knobs0[1])
+            raise TraceEscape('the traced call changed interpreter-wide state (numpy error handling / attrs validators / ...)')
         em = Emitter()
         pcs = list(ctx.pcs)
         if exc is not None:
